@@ -105,7 +105,7 @@ def histories(draw):
     )
     opts = draw(
         st.lists(
-            st.sampled_from(PRESETS + ["optimal", "optimal-outer", "p1_tuple", "p1_list", "p1_nested", "p2_tuple", "p2_list", "p2_nested", "e_tuple", "e_list"]),
+            st.sampled_from(PRESETS + ["optimal", "optimal-outer", "p1_tuple", "p1_list", "p1_nested", "p2_tuple", "p2_list", "p2_nested", "e_tuple", "e_list", "tree_plain", "tree_sliced"]),
             min_size=1, max_size=3,
         )
     )
@@ -289,7 +289,25 @@ def run_case(spec, sub=None):
         o = call["optimize"]
         explicit = None
         edge = None
-        if o.startswith("p"):
+        if o.startswith("tree_") and (labmode != "str" or len(inputs) < 2):
+            o = "greedy"
+        if o == "tree_sliced":
+            # strictly positive entries: no slice is identically zero (with
+            # stripping that would be the documented nan)
+            arrays = [np.asarray(np.abs(a) + 1) for a in arrays]
+            arrays2 = [np.asarray(np.abs(a) + 1) for a in arrays2]
+            exp = ref.dense_ref(inputs, output, sizes, arrays)
+            exp2 = ref.dense_ref(inputs, output, sizes, arrays2)
+        if o.startswith("tree_"):
+            # an explicit ContractionTree instance as ``optimize`` (documented);
+            # 'sliced': with one label sliced, so that expressions wrap
+            # tree.contract instead of a compiled contractor
+            optimize = ctg.ContractionTree.from_path(inputs, output, sizes, path=paths["p1"])
+            if o == "tree_sliced" and sizes:
+                cand_ = [ix for ix in sorted(sizes) if ix in {j for t in inputs for j in t}]
+                if cand_:
+                    optimize.remove_ind_(cand_[call["vk"] % len(cand_)])
+        elif o.startswith("p"):
             explicit = paths[o[:2]]
             if o.endswith("nested"):
                 # a list of lists (e.g. a path that went through JSON)
@@ -413,6 +431,16 @@ def run_case(spec, sub=None):
                     check_not_shared(e, canon, what)
                 out["values"].append((e(*arrays), exp, bool(strip)))
                 if fn == "expression_reuse":
+                    if call["aseed"] % 2 == 0 and not kw.get("via"):
+                        # one call with a per-call option in between: it must
+                        # hold for that call only
+                        try:
+                            r_mid = e(*arrays, strip_exponent=not bool(strip))
+                        except TypeError:
+                            # (this kind of expression takes no per-call options)
+                            r_mid = None
+                        if r_mid is not None:
+                            out["values"].append((r_mid, exp, not bool(strip)))
                     out["values"].append((e(*arrays2), exp2, bool(strip)))
             elif fn == "einsum_expression":
                 e = ctg.einsum_expression(eq, *shapes, optimize=optimize, strip_exponent=strip, cache=cache, **kw)
